@@ -1095,4 +1095,5 @@ func runC10(c *Ctx) {
 	checkListApplySiblings(c, "listing.apply-errors")
 	checkSilentSkipOnlyNotExists(c, c.P.BodyOf(c.P.Func("pkg/core.getLabelAsync")), "listing.label-skip-only-not-exists", false)
 	checkSilentSkipOnlyNotExists(c, c.P.BodyOf(c.P.Func("pkg/core.getBundleAsync")), "listing.bundle-skip-only-not-exists")
+	checkNoRelabelAsMissing(c, "listing.no-relabel")
 }
